@@ -5,9 +5,8 @@ namespace Driver.Ident
 open Mpt Mpt.Ident
 
 /-- model system (slots of identifiers + heap) and the spec values, side by side -/
-structure Sys where
-  ids : List (Option Mpt.Ident.Ident) := []
-  heap : Heap := ⟨[]⟩
+structure DSys where
+  m : Mpt.Ident.Sys := Sys.empty
   spec : List (Option Val) := []
   deriving Inhabited
 
@@ -72,38 +71,31 @@ def enum {α} (l : List α) : List (Nat × α) := (List.range l.length).zip l
 def fmtC (items : List (Nat × String)) : String :=
   if items.isEmpty then "-" else " ".intercalate (items.map fun (k, s) => s!"k{k}={s}")
 
-def fmtCModel (s : Sys) : String :=
-  fmtC ((enum s.ids).filterMap fun (k, o) => o.map fun id => (k, fmtIdent id s.heap))
+def fmtCModel (s : DSys) : String :=
+  fmtC ((enum s.m.ids).filterMap fun (k, o) => o.map fun id => (k, fmtIdent id s.m.heap))
 
 def fmtCSpec (sp : List (Option Val)) : String :=
   fmtC ((enum sp).filterMap fun (k, o) => o.map fun v => (k, fmtVal v))
 
-def owned (h : Heap) (k : Nat) : Nat := (h.blocks.filter fun b => b.live && b.owner == k).length
-
-def fmtI (s : Sys) (extra : String := "") : String :=
-  let items := (enum s.ids).filterMap fun (k, o) => o.map fun id =>
-    s!"k{k}={id.len}/{id.max}/{if id.len > id.max then "ext" else "inl"}/{owned s.heap k}"
-  let live := (s.heap.blocks.filter (·.live)).length
+def fmtI (s : DSys) (extra : String := "") : String :=
+  let items := (enum s.m.ids).filterMap fun (k, o) => o.map fun id =>
+    s!"k{k}={id.len}/{id.max}/{if id.len > id.max then "ext" else "inl"}/{s.m.owned k}"
+  let live := (s.m.heap.blocks.filter (·.live)).length
   let pre := if items.isEmpty then "" else " ".intercalate items ++ " "
   s!"{pre}heap={live}{extra}"
 
-def line (r : String) (s : Sys) (alts : List (String × List (Option Val))) (extra : String := "") : String :=
+abbrev Alts := List (String × List (Option Val))
+
+def line (r : String) (s : DSys) (alts : Alts) (extra : String := "") : String :=
   let a := " || ".intercalate (alts.map fun (rt, sp) => s!"{rt} ; {fmtCSpec sp}")
   s!"R {r} | C {fmtCModel s} | I {fmtI s extra} | S {a}"
 
-def getSlot (s : Sys) (w : String) : Option (Nat × Mpt.Ident.Ident) :=
+def getSlot (s : DSys) (w : String) : Option (Nat × Mpt.Ident.Ident) :=
   match parseDec w with
-  | some k => match s.ids[k]? with
-    | some (some id) => some (k, id)
-    | _ => none
+  | some k => (s.m.get k).map fun id => (k, id)
   | none => none
 
-def setAt {α} (l : List α) (k : Nat) (v : α) : List α := l.set k v
-
-def specOf (s : Sys) (k : Nat) : Val := ((s.spec[k]?).getD none).getD Val.unset
-
-def addSlot (s : Sys) (id : Mpt.Ident.Ident) (h : Heap) (v : Val) : Sys :=
-  { ids := s.ids ++ [some id], heap := h, spec := s.spec ++ [some v] }
+def specOf (s : DSys) (k : Nat) : Val := ((s.spec[k]?).getD none).getD Val.unset
 
 def maxSlots : Nat := 16
 
@@ -113,80 +105,75 @@ def nameOf (name : Option (List Byte)) (len : Int) : Option Name :=
   | some b => if len < 0 then some (.text (cstr b)) else some (.text (b.take len.toNat))
   | none => if len < 0 then none else some (.null len.toNat)
 
-def fault (s : Sys) (f : Fault) (alts : List (String × List (Option Val))) : Sys × String :=
-  (s, line s!"FAULT:{faultName f}" s alts)
+/-- the harness releases what an ended identifier left behind -/
+def reap (m : Mpt.Ident.Sys) (k : Nat) : Mpt.Ident.Sys :=
+  { m with heap := ⟨m.heap.blocks.map fun b => if b.live && b.owner == k then { b with live := false } else b⟩ }
 
-def step (s : Sys) (w : List String) : Sys × String :=
+/-- run one model operation and print it; `spOk` is the spec state if the operation reports success -/
+def runOp (s : DSys) (op : Op) (alts : Alts) (spOk : List (Option Val)) : DSys × String :=
+  match s.m.step op with
+  | .error f => (s, line s!"FAULT:{faultName f}" s alts)
+  | .ok (m', res) =>
+    match res, op with
+    | .invalid, _ => (s, "bad-op")
+    | .done ok, _ =>
+      let s' : DSys := { m := m', spec := if ok then spOk else s.spec }
+      (s', line (if ok then "ok" else "refused") s' alts)
+    | .ended leaked, .free k | .ended leaked, .tfini k =>
+      let s' : DSys := { m := reap m' k, spec := spOk }
+      (s', line s!"ok leaked={leaked}" s' alts)
+    | .ended leaked, _ =>
+      let s' : DSys := { m := m', spec := spOk }
+      (s', line s!"ok leaked={leaked}" s' alts)
+
+def newSlot (s : DSys) (size : Nat) : DSys × String :=
+  let sp' := s.spec ++ [some Val.unset]
+  runOp s (.new size) [("ok", sp')] sp'
+
+def step (s : DSys) (w : List String) : DSys × String :=
   match w with
   | ["i", "reset"] =>
-    let s' : Sys := {}
+    let s' : DSys := {}
     (s', line "ok" s' [("ok", [])])
   | ["i", "new", sz] =>
     match parseDec sz with
-    | some n =>
-      if n < 16 ∨ n > 300 ∨ s.ids.length ≥ maxSlots then (s, "bad-op")
-      else
-        let sp' := s.spec ++ [some Val.unset]
-        match create n with
-        | .ok id => let s' := addSlot s id s.heap Val.unset; (s', line "ok" s' [("ok", sp')])
-        | .error f => fault s f [("ok", sp')]
+    | some n => if n < 16 ∨ n > 300 ∨ s.m.ids.length ≥ maxSlots then (s, "bad-op") else newSlot s n
     | none => (s, "bad-op")
   | ["i", "alloc", ln] =>
     match parseDec ln with
     | some n =>
-      if n > 100000 ∨ s.ids.length ≥ maxSlots then (s, "bad-op")
+      if n > 100000 ∨ s.m.ids.length ≥ maxSlots then (s, "bad-op")
       else match newSize n with
         | none => (s, line "refused" s [("refused", s.spec)])
-        | some size =>
-          let sp' := s.spec ++ [some Val.unset]
-          match create size with
-          | .ok id => let s' := addSlot s id s.heap Val.unset; (s', line "ok" s' [("ok", sp')])
-          | .error f => fault s f [("ok", sp')]
+        | some size => newSlot s size
     | none => (s, "bad-op")
   | ["i", "node", ln] =>
     match parseDec ln with
-    | some n =>
-      if n > 100000 ∨ s.ids.length ≥ maxSlots then (s, "bad-op")
-      else
-        let sp' := s.spec ++ [some Val.unset]
-        match create (nodeIdentSize n) with
-        | .ok id => let s' := addSlot s id s.heap Val.unset; (s', line "ok" s' [("ok", sp')])
-        | .error f => fault s f [("ok", sp')]
+    | some n => if n > 100000 ∨ s.m.ids.length ≥ maxSlots then (s, "bad-op") else newSlot s (nodeIdentSize n)
     | none => (s, "bad-op")
   | "i" :: "set" :: kw :: dw :: rest =>
     match getSlot s kw, parseBytes dw, (match rest with | [] => some none | [l] => (parseLen l).map some | _ => none) with
-    | some (k, id), some name, some olen =>
+    | some (k, _), some name, some olen =>
       let len : Int := olen.getD ((name.getD []).length : Int)
       let bad := match name with
         | none => olen.isNone || len < 0
         | some b => len > (b.length : Int)
       if bad then (s, "bad-op")
       else
-        let alts : List (String × List (Option Val)) := match (nameOf name len).bind setVal with
-          | some v => [("ok", setAt s.spec k (some v))]
-          | none => [("refused", s.spec)]
-        match set id s.heap k (name.map (· ++ [0])) len with
-        | .ok (id', h', ok) =>
-          let sp' := if ok then (match (nameOf name len).bind setVal with | some v => setAt s.spec k (some v) | none => s.spec) else s.spec
-          let s' : Sys := { ids := setAt s.ids k (some id'), heap := h', spec := sp' }
-          (s', line (if ok then "ok" else "refused") s' alts)
-        | .error f => fault s f alts
+        match (nameOf name len).bind setVal with
+        | some v => let sp' := s.spec.set k (some v); runOp s (.set k name len) [("ok", sp')] sp'
+        | none => runOp s (.set k name len) [("refused", s.spec)] s.spec
     | _, _, _ => (s, "bad-op")
   | ["i", "copy", kw, jw] =>
     match getSlot s kw with
-    | some (k, id) =>
-      let src : Option (Option (Nat × Mpt.Ident.Ident)) := if jw = "null" then some none else (getSlot s jw).map some
+    | some (k, _) =>
+      let src : Option (Option Nat) := if jw = "null" then some none else (getSlot s jw).map fun p => some p.1
       match src with
       | none => (s, "bad-op")
       | some o =>
-        let v : Val := match o with | some (j, _) => specOf s j | none => Val.unset
-        let sp' := setAt s.spec k (some v)
-        let alts := [("ok", sp')]
-        match copy id (o.map (·.2)) (match o with | some (j, _) => j == k | none => false) s.heap k with
-        | .ok (id', h', ok) =>
-          let s' : Sys := { ids := setAt s.ids k (some id'), heap := h', spec := if ok then sp' else s.spec }
-          (s', line (if ok then "ok" else "refused") s' alts)
-        | .error f => fault s f alts
+        let v : Val := match o with | some j => specOf s j | none => Val.unset
+        let sp' := s.spec.set k (some v)
+        runOp s (.copy k o) [("ok", sp')] sp'
     | none => (s, "bad-op")
   | "i" :: "cmp" :: kw :: dw :: rest =>
     match getSlot s kw, parseBytes dw, (match rest with | [] => some none | [l] => (parseLen l).map some | _ => none) with
@@ -197,68 +184,49 @@ def step (s : Sys) (w : List String) : Sys × String :=
         | some b => len > (b.length : Int)
       if bad then (s, "bad-op")
       else
-        let alts : List (String × List (Option Val)) := match name with
+        let alts : Alts := match name with
           | some b =>
             let t := if len < 0 then cstr b else b.take len.toNat
             [(if cmpEq (specOf s k) t then "eq" else "ne", s.spec)]
           | none => [("*", s.spec)]
-        match compare id s.heap (name.map (· ++ [0])) len with
+        match compare id s.m.heap (name.map (· ++ [0])) len with
         | .ok r => (s, line (if r = 0 then "eq" else "ne") s alts s!" ret={if r < 0 then r else if r > 0 then 1 else 0}")
-        | .error f => fault s f alts
+        | .error f => (s, line s!"FAULT:{faultName f}" s alts)
     | _, _, _ => (s, "bad-op")
   | ["i", "ineq", kw, jw] =>
     match getSlot s kw, getSlot s jw with
     | some (k, a), some (j, b) =>
       let alts := [(if sameVal (specOf s k) (specOf s j) then "eq" else "ne", s.spec)]
-      match inequal a b s.heap with
+      match inequal a b s.m.heap with
       | .ok r => (s, line (if r = 0 then "eq" else "ne") s alts)
-      | .error f => fault s f alts
+      | .error f => (s, line s!"FAULT:{faultName f}" s alts)
     | _, _ => (s, "bad-op")
   | ["i", "free", kw] =>
     match getSlot s kw with
-    | some (k, id) =>
-      let sp' := setAt s.spec k none
-      let alts := [("ok leaked=0", sp')]
-      match set id s.heap k none 0 with
-      | .ok (_, h', _) =>
-        let leaked := owned h' k
-        -- the harness releases what was left behind
-        let h'' : Heap := ⟨h'.blocks.map fun b => if b.live && b.owner == k then { b with live := false } else b⟩
-        let s' : Sys := { ids := setAt s.ids k none, heap := h'', spec := sp' }
-        (s', line s!"ok leaked={leaked}" s' alts)
-      | .error f => fault s f alts
+    | some (k, _) => let sp' := s.spec.set k none; runOp s (.free k) [("ok leaked=0", sp')] sp'
     | none => (s, "bad-op")
   | ["i", "tinit", jw] =>
-    let src : Option (Option (Nat × Mpt.Ident.Ident)) := if jw = "null" then some none else (getSlot s jw).map some
+    let src : Option (Option Nat) := if jw = "null" then some none else (getSlot s jw).map fun p => some p.1
     match src with
     | none => (s, "bad-op")
     | some o =>
-      if s.ids.length ≥ maxSlots then (s, "bad-op")
+      if s.m.ids.length ≥ maxSlots then (s, "bad-op")
       else
-        let v : Val := match o with | some (j, _) => specOf s j | none => Val.unset
-        let k := s.ids.length
-        let alts := [("ok", s.spec ++ [some v])]
-        match traitsInit (o.map (·.2)) s.heap k with
-        | .ok (id', h', r) =>
-          let s' := addSlot s id' h' v
-          (s', line (if r < 0 then "refused" else "ok") s' alts)
-        | .error f => fault s f alts
+        let v : Val := match o with | some j => specOf s j | none => Val.unset
+        let sp' := s.spec ++ [some v]
+        -- a refused copy construction still occupies the slot
+        match s.m.step (.tinit o) with
+        | .error f => (s, line s!"FAULT:{faultName f}" s [("ok", sp')])
+        | .ok (m', res) =>
+          let s' : DSys := { m := m', spec := sp' }
+          (s', line (if res == .done true then "ok" else "refused") s' [("ok", sp')])
   | ["i", "tfini", kw] =>
     match getSlot s kw with
-    | some (k, id) =>
-      let sp' := setAt s.spec k none
-      let alts := [("ok leaked=0", sp')]
-      match fini id s.heap k with
-      | .ok (_, h') =>
-        let leaked := owned h' k
-        let h'' : Heap := ⟨h'.blocks.map fun b => if b.live && b.owner == k then { b with live := false } else b⟩
-        let s' : Sys := { ids := setAt s.ids k none, heap := h'', spec := sp' }
-        (s', line s!"ok leaked={leaked}" s' alts)
-      | .error f => fault s f alts
+    | some (k, _) => let sp' := s.spec.set k none; runOp s (.tfini k) [("ok leaked=0", sp')] sp'
     | none => (s, "bad-op")
   | _ => (s, "bad-op")
 
 def main (_args : List String) : IO Unit := do
-  Driver.loop (← IO.getStdin) (← IO.getStdout) step ({} : Sys)
+  Driver.loop (← IO.getStdin) (← IO.getStdout) step ({} : DSys)
 
 end Driver.Ident
